@@ -39,8 +39,8 @@ def run(tier, seed, replay=None):
                 outcomes[oc] = outcomes.get(oc, 0) + 1
                 if oc != "EXIT0":
                     bad = "the reading process ended with %s (%s build)" % (oc, prof)
-                elif any("PANIC" in l for l in c[prof]["lines"]):
-                    bad = "panic while reading (%s build): %s" % (prof, next(l for l in c[prof]["lines"] if "PANIC" in l)[:160])
+                elif any("PANIC" in l for l in c[prof]["lines"] + c[prof].get("mt", [])):
+                    bad = "panic while reading (%s build): %s" % (prof, next(l for l in c[prof]["lines"] + c[prof].get("mt", []) if "PANIC" in l)[:160])
                 elif not c[prof]["lines"]:
                     bad = "the reading process printed nothing (%s build)" % prof
                 if bad:
@@ -51,8 +51,8 @@ def run(tier, seed, replay=None):
                 k2_hits.append("%s:%s:%s (%s)" % (bid, c["file"], c["op"].split(":")[1], bad[:90]))
             elif bad:
                 res.violation("C06: %s after %s on %s of base %s" % (bad, c["op"], c["file"], bid),
-                              "case %s damage base=%s main=c.jbk file=%s op=%s\nend\n# base container: %s\n# %s\n" % (
-                                  c["id"], o["dir"], c["file"], c["op"], o["base"], bad))
+                              "case %s damage base=%s main=c.jbk file=%s op=%s%s\nend\n# base container: %s\n# %s\n" % (
+                                  c["id"], o["dir"], c["file"], c["op"], " mt=4" if c.get("mt") else "", o["base"], bad))
             elif not (opk == "xor" and c["op"].endswith(D.KERNEL) and any("PANIC" in l for l in c["debug"]["lines"])) \
                     and not D.model_agrees(c["debug"]["lines"], c["model"]):
                 dis += 1
@@ -63,6 +63,8 @@ def run(tier, seed, replay=None):
     if k2_hits:
         res.known("K2", "CRC-valid altered metadata (kernel pattern 01 1E DC 6F 41) makes the reader panic or abort at %d positions of this run, e.g. %s" % (len(k2_hits), k2_hits[0]))
     res.cov["known_finding_K2_positions"] = len(k2_hits)
+    res.cov["cases_also_read_by_4_threads_at_once"] = sum(1 for o in out.values() for c in o["cases"] if c.get("mt"))
+    res.cov["multi_thread_reads"] = sum(len(c[prof].get("mt", [])) for o in out.values() for c in o["cases"] for prof in ("debug", "release"))
     res.cov.update({
         "evaluations": 2 * n, "distinct_nontrivial": errs, "damage_kinds": kinds, "process_outcomes": outcomes,
         "rule": "base containers built by the real creator (raw, zstd, lz4 two-file; thorough adds lzma three-file); every byte position x masks, truncation lengths "
